@@ -1352,3 +1352,17 @@ def json_Decoder_Decode(ex, st, args, ctx):
 
 BASE.update({'(*sync.Mutex).Lock': mutex_Lock, '(*sync.Mutex).Unlock': mutex_Unlock, 'encoding/json.NewDecoder': json_NewDecoder, '(*encoding/json.Decoder).Decode': json_Decoder_Decode})
 INTRINSICS.update({'verifNoLocksHeld': i_no_locks_held, 'verifBodyWellFormed': i_body_wellformed})
+
+
+def poseidon_Hash(ex, st, args, ctx):
+    used('iden3 poseidon.Hash: uninterpreted function of its (one or two) field elements, never fails')
+    cells = ex.cells(st, args[0])
+    if not isinstance(args[0].len, int):
+        raise Unsupported('poseidon.Hash with symbolic arity')
+    vals = [bigptr(ex, st, c).v for c in cells[:args[0].len]]
+    f = uf(ex, 'poseidon%d' % len(vals), *([z3.BitVecSort(BIG)] * (len(vals) + 1)))
+    o = st.alloc(Big(f(*vals)))
+    return (Ptr(o), NIL)
+
+
+BASE.update({'github.com/iden3/go-iden3-crypto/poseidon.Hash': poseidon_Hash})
